@@ -118,8 +118,24 @@ pub fn run_case(cx: &mut Ctx) {
             consts: (0..nconst).map(|_| (ident(&mut rng, 8, VALID_LABEL_NAMES), rng.pick(&["", "1", "x"]).to_string())).collect(),
             vars: (0..nvar).map(|_| ident(&mut rng, 8, VALID_LABEL_NAMES)).collect(),
         };
-        // HashMap cannot hold a const label name twice; keep the last value like the map does
         let mut a = a;
+        // one constructor call in fifteen carries many labels (more than eight in total), sometimes with a
+        // variable label that repeats a constant label's name
+        if a.ctor != 11 && rng.chance(1, 15) {
+            a.consts = (0..(5 + rng.usize_below(3))).map(|i| (format!("c{}", i), "v".to_string())).collect();
+            if is_vec || a.ctor == 10 {
+                a.vars = (0..(4 + rng.usize_below(3))).map(|i| format!("v{}", i)).collect();
+                if rng.chance(1, 2) {
+                    let k = rng.usize_below(a.vars.len());
+                    a.vars[k] = a.consts[rng.usize_below(a.consts.len())].0.clone();
+                }
+                if rng.chance(1, 4) {
+                    let k = rng.usize_below(a.vars.len());
+                    a.vars[k] = a.vars[(k + 1) % a.vars.len()].clone();
+                }
+            }
+        }
+        // HashMap cannot hold a const label name twice; keep the last value like the map does
         let mut dedup: Vec<(String, String)> = Vec::new();
         for (k, v) in a.consts.iter() {
             if let Some(p) = dedup.iter_mut().find(|p| &p.0 == k) {
